@@ -125,8 +125,8 @@ func PackString(buffer []byte, maxLen uint, input string) (uint, error) {
 	}
 
 	if len(encoded) >= int(maxLen) {
-		encoded = encoded[:maxLen]
-		encoded[maxLen] = 0x00
+		// Leave room for the terminator, which the zero-fill below writes.
+		encoded = encoded[:maxLen-1]
 	}
 
 	copy(buffer, encoded)
